@@ -593,7 +593,8 @@ Proof. destruct s; [right|left]; reflexivity. Qed.
 Lemma e2e_c01 s r : demands_met s r -> C01.Model.parse_response (in01 s r) = true.
 Proof.
   intros (H1 & H2 & H3).
-  destruct (C01.Proofs.policy_holds (in01 s r)) as [_ Hc]. apply Hc; [|cbn; discriminate].
+  destruct (C01.Proofs.policy_holds (in01 s r)) as [_ Hc].
+  apply Hc; [|cbn; destruct (String.eqb (sp_binding s) BINDING_HTTP_REDIRECT); discriminate].
   unfold C01.Spec.satisfied, C01.Spec.wr, C01.Spec.wa, C01.Spec.wor; cbn.
   repeat split; try apply sigst_ok.
   - intros W. apply sigst_valid, H1. rewrite in_force01_wr. exact W.
@@ -648,14 +649,97 @@ Lemma update_farg_none irt d : update_farg irt d None =
   {| f_method := Some SCM_BEARER; f_irt := irt; f_recipient := Some d |}.
 Proof. reflexivity. Qed.
 
+(* ------------------------------------------------------------ the requester's consumer endpoints, as configured *)
+(* Config.endpoint on the unpacked specifications: a bare URL is handed out when no specification names the binding *)
+Lemma endpoint_bare specs b d :
+  In (C04.Model.Bare d) specs -> (forall u, ~ In (C04.Model.EP u b) specs) -> In d (C04.Model.endpoint specs b).
+Proof.
+  intros Hb Hn. unfold C04.Model.endpoint.
+  set (f := fun e => match e with C04.Model.EP u b0 => if String.eqb b0 b then [u] else [] | C04.Model.Bare _ => [] end).
+  assert (Hs : flat_map f specs = []).
+  { clear Hb. induction specs as [|e l IH]; [reflexivity|]. cbn [flat_map].
+    rewrite IH by (intros u Hu; apply (Hn u); right; exact Hu).
+    destruct e as [u b0|u]; cbn [f]; [|reflexivity].
+    destruct (String.eqb b0 b) eqn:E; [|reflexivity].
+    apply String.eqb_eq in E. subst b0. exfalso. apply (Hn u). left; reflexivity. }
+  rewrite Hs. apply in_flat_map. exists (C04.Model.Bare d). split; [exact Hb|left; reflexivity].
+Qed.
+
+Lemma names_url_binding_ep acs d b e :
+  In e acs -> names_url_binding d b e = true -> In (C04.Model.EP d b) (map conf_ep acs).
+Proof.
+  intros Hin Hn. apply in_map_iff. exists e. split; [|exact Hin].
+  destruct e as [u|u b'|u b' i]; cbn in Hn; [discriminate| |];
+    apply andb_true_iff in Hn; destruct Hn as [A B]; apply String.eqb_eq in A, B; subst; reflexivity.
+Qed.
+
+(* every published consumer URL is among the return addresses of the binding it is published for - unless it is
+   published by a bare specification only and another specification names that binding (finding C09-F3) *)
+Lemma published_reachable acs d b :
+  In (d, b) (published acs) -> bare_shadowed_b acs d b = false -> In d (C04.Model.endpoint (map conf_ep acs) b).
+Proof.
+  intros Hp Hg. unfold published in Hp. apply in_map_iff in Hp. destruct Hp as (e & He & Hin).
+  destruct e as [u|u b'|u b' i]; cbn in He.
+  - injection He as Hu Hb0. subst u. subst b.
+    unfold bare_shadowed_b in Hg. apply andb_false_iff in Hg. destruct Hg as [Hg|Hg].
+    + apply negb_false_iff, existsb_exists in Hg. destruct Hg as (e' & Hin' & Hn).
+      apply C04.Proofs.endpoint_complete. exact (names_url_binding_ep acs d _ e' Hin' Hn).
+    + apply endpoint_bare.
+      * apply in_map_iff. exists (ABare d). split; [reflexivity|exact Hin].
+      * intros u0 Hu. apply in_map_iff in Hu. destruct Hu as (e' & He' & Hin').
+        assert (Hnb : names_binding acs_default_binding e' = true).
+        { destruct e' as [v|v b0|v b0 j]; cbn in He'; [discriminate| |]; inversion He'; subst; cbn [names_binding]; apply String.eqb_refl. }
+        assert (Hex : existsb (names_binding acs_default_binding) acs = true)
+          by (apply existsb_exists; exists e'; split; assumption).
+        rewrite Hex in Hg. discriminate.
+  - inversion He; subst. apply C04.Proofs.endpoint_complete. apply in_map_iff. exists (APair d b). split; [reflexivity|exact Hin].
+  - inversion He; subst. apply C04.Proofs.endpoint_complete. apply in_map_iff. exists (AIndexed d b i). split; [reflexivity|exact Hin].
+Qed.
+
+Lemma bare_shadowed_b_iff acs d b : bare_shadowed_b acs d b = true <-> bare_shadowed acs d b.
+Proof.
+  unfold bare_shadowed_b, bare_shadowed. rewrite andb_true_iff, negb_true_iff. split.
+  - intros [A B]. split.
+    + intros e He. destruct (names_url_binding d b e) eqn:E; [|reflexivity].
+      assert (X : existsb (names_url_binding d b) acs = true) by (apply existsb_exists; exists e; split; assumption).
+      rewrite X in A. discriminate.
+    + apply existsb_exists in B. exact B.
+  - intros [A B]. split.
+    + destruct (existsb (names_url_binding d b) acs) eqn:E; [|reflexivity].
+      apply existsb_exists in E. destruct E as (e & He & Hn). rewrite (A e He) in Hn. discriminate.
+    + apply existsb_exists. exact B.
+Qed.
+
+(* the addressing checks (C04) pass when Destination and Recipient are one of the return addresses *)
+Lemma identity_addressed x d :
+  (forall q, In q (C04.Model.rs x) -> In (Some (C04.Model.me x)) q) -> C04.Model.me x <> "" ->
+  no_outer_ws (C04.Model.me x) = true ->
+  C04.Model.dest x = Some d -> In d (C04.Model.endpoint (C04.Model.specs x) (C04.Model.binding x)) ->
+  C04.Model.recip x = Some d -> d <> "" -> C04.Model.conv x = None ->
+  C04.Model.identity x = true.
+Proof.
+  intros Hrs Hme Hws Hd Hde Hr Hdne Hcv. unfold C04.Model.identity.
+  rewrite !andb_true_iff. split; [split|].
+  - unfold C04.Model.dest_ok. destruct (C04.Model.asynchop (C04.Model.binding x)); [|reflexivity]. rewrite Hd.
+    apply orb_true_iff; right. apply mem_In. exact Hde.
+  - unfold C04.Model.for_me. apply forallb_forall. intros q Hq. apply existsb_exists. exists (Some (C04.Model.me x)).
+    split; [apply Hrs; exact Hq|]. cbn. rewrite (strip_id _ Hws), String.eqb_refl.
+    destruct (C04.Model.me x); [contradiction|reflexivity].
+  - unfold C04.Model.recipient_ok. rewrite Hr. apply andb_true_iff. split.
+    + destruct d; [contradiction|reflexivity].
+    + unfold C04.Model.verify_recipient. rewrite Hcv. reflexivity.
+Qed.
+
 (* the end-to-end clause: a Response created for a requester is accepted by that requester's SP and the
-   identity it reports is exactly what was released *)
+   identity it reports is exactly what was released - in every spelling of the requester's consumer endpoints, for
+   every consumer URL it publishes, outside the class of the open finding C09-F3 *)
 Lemma e2e_holds x r s d ctx :
   create x = Issued r ->
-  same_federation x s d ctx -> plain_call x -> demands_met s r -> clock_within s r ->
+  same_federation x s d ctx -> bare_shadowed_b (sp_acs s) d (sp_binding s) = false ->
+  plain_call x -> demands_met s r -> clock_within s r ->
   sp_accepts s r = Some (a_identity (arg x), i_nooa_cond r, Some ctx).
 Proof.
-  intros H (Hme & Hidp & Hne & Hws & Hd & Hdne & Hep & (i & Hirt & Hout)) (Hiss & Hfa & (c & Hau & Hc)) Hdm Hck.
+  intros H (Hme & Hidp & Hne & Hws & Hd & Hdne & Hep & (i & Hirt & Hout)) Hguard (Hiss & Hfa & (c & Hau & Hc)) Hdm Hck.
   destruct (create_issued _ _ H) as (nm & src & sr & sa & _ & _ & Er).
   assert (Eiss : issuer_of x = sp_idp s).
   { rewrite Hidp. unfold issuer_of. destruct Hiss as [-> | ->]; reflexivity. }
@@ -674,24 +758,35 @@ Proof.
   assert (Esc : i_nooa_sc r = i_nooa_cond r) by (rewrite Er; reflexivity).
   assert (Eri : r_issuer r = sp_idp s) by (rewrite Er; exact Eiss).
   assert (Eii : i_issuer r = sp_idp s) by (rewrite Er; exact Eiss).
-  unfold sp_accepts.
+  unfold sp_accepts, sp_accepts_with. fold (in04 s r).
   assert (S1 : shape_ok s r = true).
   { unfold shape_ok. rewrite Eri, Eii, Emeth, Eauthn, !String.eqb_refl, opt_eqb_refl.
     destruct (s_response r), (s_assertion r); reflexivity. }
   assert (S2 : C04.Model.identity (in04 s r) = true).
-  { apply (C04.Proofs.addressed_to_me_accepted (in04 s r) d d); cbn.
+  { apply (identity_addressed (in04 s r) d); cbn.
     - rewrite Eaud. cbn. intros q [<-|[]]. left; reflexivity.
     - rewrite Hme; exact Hne.
     - rewrite Hme; exact Hws.
     - exact Edest.
-    - exact Hep.
+    - exact (published_reachable _ _ _ Hep Hguard).
     - exact Erec.
     - exact Hdne.
-    - exact Hep. }
+    - reflexivity. }
   rewrite S1, (e2e_c01 _ _ Hdm), S2; cbn [andb].
   rewrite (e2e_c05 _ _ Enb Esc Hck).
   rewrite (e2e_c06 s r i ctx Erirt Eirt Hout) by (rewrite Eauthn; discriminate).
   rewrite Eattr. reflexivity.
+Qed.
+
+Lemma e2e_holds_guarded x r s d ctx :
+  create x = Issued r ->
+  same_federation x s d ctx -> ~ bare_shadowed (sp_acs s) d (sp_binding s) ->
+  plain_call x -> demands_met s r -> clock_within s r ->
+  sp_accepts s r = Some (a_identity (arg x), i_nooa_cond r, Some ctx).
+Proof.
+  intros H F G. apply (e2e_holds x r s d ctx H F).
+  destruct (bare_shadowed_b (sp_acs s) d (sp_binding s)) eqn:E; [|reflexivity].
+  exfalso. apply G, bare_shadowed_b_iff, E.
 Qed.
 
 (* the boolean hypothesis check used on observed outputs implies the stated hypotheses *)
@@ -710,7 +805,7 @@ Proof.
     + intros C. rewrite C in *. discriminate.
     + intros C. rewrite C in *. discriminate.
     + match goal with H : existsb _ _ = true |- _ => apply existsb_exists in H; destruct H as (ep & Hin & Hep) end.
-      destruct ep as [u b|u]; cbn in Hep; [|discriminate].
+      destruct ep as [u b]. unfold is_pub in Hep; cbn [fst snd] in Hep.
       apply andb_true_iff in Hep. destruct Hep as [A B]. apply String.eqb_eq in A, B. subst. exact Hin.
     + destruct (a_in_response_to (arg x)) as [i|]; [|discriminate]. exists i. split; [reflexivity|exact Hctx].
   - match goal with H : plain_call_b x = true |- _ => unfold plain_call_b in H;
@@ -737,18 +832,22 @@ Qed.
 
 (* hence: whenever the boolean hypotheses hold of an issued Response, the acceptance model reports exactly the
    identity the boolean clause e2e_b demands *)
-Lemma e2e_b_model x s r : create x = Issued r -> e2e_b x s r (sp_accepts s r) = true.
+Lemma e2e_b_model x s r :
+  create x = Issued r -> bare_shadowed_b (sp_acs s) (a_destination (arg x)) (sp_binding s) = false ->
+  e2e_b x s r (sp_accepts s r) = true.
 Proof.
-  intros H. unfold e2e_b. destruct (e2e_hyp_b x s r) as [ctx|] eqn:E; [|reflexivity].
+  intros H Hg. unfold e2e_b. destruct (e2e_hyp_b x s r) as [ctx|] eqn:E; [|reflexivity].
   destruct (e2e_hyp_sound _ _ _ _ E) as (d & H1 & H2 & H3 & H4).
-  rewrite (e2e_holds _ _ _ _ _ H H1 H2 H3 H4).
+  assert (Ed : a_destination (arg x) = d) by (destruct H1 as (_ & _ & _ & _ & Hd & _); exact Hd).
+  rewrite Ed in Hg.
+  rewrite (e2e_holds _ _ _ _ _ H H1 Hg H2 H3 H4).
   rewrite (proj2 (attrs_eqb_eq _ _) eq_refl), Z.eqb_refl, opt_eqb_refl. reflexivity.
 Qed.
 
 (* ------------------------------------------------------------ non-vacuity *)
 Definition example_sp : spside :=
   {| sp_me := "https://sp.example.org/sp.xml"; sp_idp := "https://idp.example.org/idp.xml";
-     sp_specs := [C04.Model.EP "https://sp.example.org/acs/post" "urn:oasis:names:tc:SAML:2.0:bindings:HTTP-POST"];
+     sp_acs := [APair "https://sp.example.org/acs/post" "urn:oasis:names:tc:SAML:2.0:bindings:HTTP-POST"];
      sp_binding := "urn:oasis:names:tc:SAML:2.0:bindings:HTTP-POST";
      sp_wr := C01.Model.Unset; sp_wa := C01.Model.Unset; sp_wor := C01.Model.Unset; sp_atd := None;
      sp_allow_unsolicited := false; sp_outstanding := [("req-1", "/came/from")]; sp_now := 1700000060; sp_zone := 0 |}.
@@ -824,3 +923,94 @@ Example wall_clock_example :
             /\ i_not_before r = 1700000000%Z /\ i_nooa_cond r = (1700000000 + 32400 + 3600)%Z
             /\ spec_b (in_zone 32400 example_in) (Issued r) = false.
 Proof. eexists. split; [vm_compute; reflexivity|repeat split; vm_compute; reflexivity]. Qed.
+
+(* ------------------------------------------------------------ the spelling of the requester's consumer endpoints *)
+Definition with_acs (acs : list acsconf) (s : spside) : spside :=
+  {| sp_me := sp_me s; sp_idp := sp_idp s; sp_acs := acs; sp_binding := sp_binding s; sp_wr := sp_wr s;
+     sp_wa := sp_wa s; sp_wor := sp_wor s; sp_atd := sp_atd s; sp_allow_unsolicited := sp_allow_unsolicited s;
+     sp_outstanding := sp_outstanding s; sp_now := sp_now s; sp_zone := sp_zone s |}.
+
+(* give every specification that names a binding the index f says (None = write it as a pair) *)
+Definition reindex (f : string -> string -> option string) (acs : list acsconf) : list acsconf :=
+  map (fun e => match e with
+                | ABare u => ABare u
+                | APair u b | AIndexed u b _ => match f u b with Some i => AIndexed u b i | None => APair u b end
+                end) acs.
+
+Lemma reindex_conf_ep f acs : map conf_ep (reindex f acs) = map conf_ep acs.
+Proof.
+  unfold reindex. rewrite map_map. apply map_ext. intros [u|u b|u b i]; [reflexivity| |]; destruct (f u b); reflexivity.
+Qed.
+
+Lemma reindex_published f acs : published (reindex f acs) = published acs.
+Proof.
+  unfold published, reindex. rewrite map_map. apply map_ext.
+  intros [u|u b|u b i]; [reflexivity| |]; destruct (f u b); reflexivity.
+Qed.
+
+(* the acceptance depends on the configured endpoints only through what Config.endpoint unpacks *)
+Lemma acs_spelling_irrelevant acs s r :
+  map conf_ep acs = map conf_ep (sp_acs s) -> sp_accepts (with_acs acs s) r = sp_accepts s r.
+Proof.
+  intros E. unfold sp_accepts, sp_accepts_with, in04_with, shape_ok, in01, in05, in06, with_acs; cbn. rewrite E. reflexivity.
+Qed.
+
+(* ... hence pairs and indexed triples, whatever the indexes, are accepted alike, and publish alike *)
+Lemma index_irrelevant f x s r so :
+  sp_accepts (with_acs (reindex f (sp_acs s)) s) r = sp_accepts s r
+  /\ published (reindex f (sp_acs s)) = published (sp_acs s)
+  /\ e2e_b x (with_acs (reindex f (sp_acs s)) s) r so = e2e_b x s r so.
+Proof.
+  split; [apply acs_spelling_irrelevant, reindex_conf_ep|split; [apply reindex_published|]].
+  unfold e2e_b, e2e_hyp_b, demands_met_b, clock_within_b, slack, with_acs; cbn. rewrite reindex_published. reflexivity.
+Qed.
+
+(* open finding C09-F3: a requester that writes one consumer URL bare and another one as a pair for the default
+   binding publishes both for that binding, and its own service provider turns a Response sent to the bare one down *)
+Definition POSTB : string := "urn:oasis:names:tc:SAML:2.0:bindings:HTTP-POST".
+Definition mixed_sp : spside :=
+  with_acs [ABare "https://sp.example.org/acs/post"; APair "https://sp.example.org/acs/post2" POSTB] example_sp.
+
+Lemma f3_refuted :
+  exists x s r ctx, create x = Issued r /\ e2e_hyp_b x s r = Some ctx
+                    /\ bare_shadowed (sp_acs s) (a_destination (arg x)) (sp_binding s)
+                    /\ sp_accepts s r = None.
+Proof.
+  exists example_in, mixed_sp. eexists. exists "/came/from".
+  split; [vm_compute; reflexivity|split; [vm_compute; reflexivity|split; [|vm_compute; reflexivity]]].
+  apply bare_shadowed_b_iff. vm_compute. reflexivity.
+Qed.
+
+(* the same requester is served when it writes both URLs the same way (either way) *)
+Example f3_uniform_spellings_accepted :
+  exists r, create example_in = Issued r
+  /\ sp_accepts (with_acs [ABare "https://sp.example.org/acs/post"; ABare "https://sp.example.org/acs/post2"] example_sp) r <> None
+  /\ sp_accepts (with_acs [APair "https://sp.example.org/acs/post" POSTB; AIndexed "https://sp.example.org/acs/post2" POSTB "7"] example_sp) r <> None.
+Proof. eexists. split; [vm_compute; reflexivity|split; vm_compute; discriminate]. Qed.
+
+(* a reading of the specifications without the slice breaks the end-to-end clause for every requester that indexes
+   its consumer URLs ... *)
+Definition indexed_sp : spside :=
+  with_acs [AIndexed "https://sp.example.org/acs/redirect" BINDING_HTTP_REDIRECT "1";
+            AIndexed "https://sp.example.org/acs/post" POSTB "2"] example_sp.
+
+Lemma noslice_refuted :
+  exists x s r ctx, create x = Issued r /\ e2e_hyp_b x s r = Some ctx
+                    /\ bare_shadowed_b (sp_acs s) (a_destination (arg x)) (sp_binding s) = false
+                    /\ sp_accepts s r = Some (a_identity (arg x), i_nooa_cond r, Some ctx)
+                    /\ sp_accepts_with unpack_noslice s r = None.
+Proof.
+  exists example_in, indexed_sp. eexists. exists "/came/from".
+  split; [vm_compute; reflexivity|split; [vm_compute; reflexivity|split; [vm_compute; reflexivity|split; vm_compute; reflexivity]]].
+Qed.
+
+(* ... and cannot be told from the code's reading on configurations without triples (why a check that only ever
+   configures pairs does not notice) *)
+Definition no_triples (acs : list acsconf) : Prop := forall u b i, ~ In (AIndexed u b i) acs.
+
+Lemma noslice_hidden_without_triples acs : no_triples acs -> unpack_noslice acs = map conf_ep acs.
+Proof.
+  unfold no_triples, unpack_noslice. induction acs as [|e l IH]; intros H; [reflexivity|]. cbn [flat_map map].
+  rewrite IH by (intros u b i Hi; apply (H u b i); right; exact Hi).
+  destruct e as [u|u b|u b i]; [reflexivity|reflexivity|]. exfalso. apply (H u b i). left; reflexivity.
+Qed.
